@@ -162,7 +162,7 @@ class Contract:
         for i, cond in enumerate(self.pre(c, a)):
             c.require(cond, f'{finfo.qualname}.pre[{i}]', kind='call')
         for cls, cond in self.raises(c, a).items():
-            if c.decide(zbool(cond)):
+            if c.decide(zbool(cond), raise_split=True):
                 raise PyRaise(cls)
         if self.may_raise:
             k = c.choose(1 + len(self.may_raise), 'callee may raise')
